@@ -250,8 +250,10 @@ private theorem agrees_of_consistent (P : Parsers ρ σ) (c : Conn) (C S : Bytes
 
 /-- **reassembly** (C09 at full strength). For every pair of HTTP parsers, every connection opened
 by a SYN and answered by a SYN-ACK, every client byte stream `C` and server byte stream `S` (each at
-most 64 KiB, the analyzer's buffering bound), every division of those bytes into TCP segments — any
-number, any sizes, overlapping or retransmitted pieces included —, every pair of initial sequence
+most 64 KiB), every division of those bytes into TCP segments — any number, any sizes, overlapping
+or retransmitted pieces included, as long as the bytes offered per direction stay within the
+analyzer's 64 KiB buffering bound (`hcC`, `hcS`; automatic for a plain division, see
+`reassembly_partition`) —, every pair of initial sequence
 numbers including those whose sequence space wraps, every arrival order of the segments and every
 interleaving of the two directions: the per-packet reports of the analyzer are exactly those of the
 sequence-space specification — each head reported once, on the packet that completes the gap-free
@@ -264,6 +266,53 @@ theorem reassembly (P : Parsers ρ σ) (hm : MinLen P) (c : Conn) (C S : Bytes) 
     run P [] (c.packets ds) = specConn P c ds :=
   reassembly_of_agreement P hm c ds hne hpl hcC hcS
     (agrees_of_consistent P c C S ds [] [] (by simpa using hC) (by simp) (by simpa using hS) (by simp))
+
+/-- the segments offered in one direction are, in some arrival order, a division of the byte stream
+`C` into consecutive non-empty pieces — no loss, no repetition -/
+def PartitionOf (isn : Nat) (C : Bytes) (segs : List Seg) : Prop :=
+  ∃ T, segs.Perm T ∧ tilesFrom isn 0 T = true ∧ T.flatMap (·.data) = C
+
+private theorem tiles_pieces (isn : Nat) : ∀ (T : List Seg) (pre : Bytes), tilesFrom isn pre.length T = true →
+    ∀ s ∈ T, rel isn s.seq + s.data.length ≤ (pre ++ T.flatMap (·.data)).length ∧
+      s.data = ((pre ++ T.flatMap (·.data)).drop (rel isn s.seq)).take s.data.length
+  | [], _, _, s, hs => by simp at hs
+  | a :: T, pre, ht, s, hs => by
+    simp only [tilesFrom, Bool.and_eq_true, beq_iff_eq] at ht
+    simp only [List.mem_cons] at hs
+    rcases hs with rfl | hs
+    · refine ⟨by simp; omega, ?_⟩
+      rw [ht.1]
+      simp [List.flatMap_cons]
+    · have ih := tiles_pieces isn T (pre ++ a.data) (by simpa using ht.2) s hs
+      simpa [List.flatMap_cons, List.append_assoc] using ih
+
+private theorem totalLen_flat : ∀ (T : List Seg), totalLen T = (T.flatMap (·.data)).length
+  | [] => rfl
+  | a :: T => by simp [totalLen, List.flatMap_cons, totalLen_flat T]
+
+private theorem partition_facts {isn : Nat} {C : Bytes} {segs : List Seg} (h : PartitionOf isn C segs)
+    (hC : C.length ≤ maxBufferedHeadBytes) :
+    Consistent isn C segs ∧ totalLen segs ≤ maxBufferedHeadBytes := by
+  obtain ⟨T, hp, ht, hflat⟩ := h
+  have hcap : maxBufferedHeadBytes < Spec.M32 := by decide
+  refine ⟨⟨by omega, ?_⟩, ?_⟩
+  · intro s hs
+    have := tiles_pieces isn T [] (by simpa using ht) s (hp.subset hs)
+    simpa [hflat] using this
+  · rw [totalLen_perm hp, totalLen_flat, hflat]; exact hC
+
+/-- **reassembly_partition** (corollary). For every division of a client stream `C` and a server
+stream `S` of at most 64 KiB each into segments, every initial sequence numbers (wrap included),
+every permutation of the segments' arrival and every interleaving of the two directions, the
+reports are those of the specification — no further hypothesis on the segments. -/
+theorem reassembly_partition (P : Parsers ρ σ) (hm : MinLen P) (c : Conn) (C S : Bytes) (ds : List DataPkt)
+    (hne : c.client ≠ c.client.rev) (hpl : PlainData ds)
+    (hC : C.length ≤ maxBufferedHeadBytes) (hS : S.length ≤ maxBufferedHeadBytes)
+    (pC : PartitionOf c.isnC C (segsOf true ds)) (pS : PartitionOf c.isnS S (segsOf false ds)) :
+    run P [] (c.packets ds) = specConn P c ds := by
+  obtain ⟨kC, lC⟩ := partition_facts pC hC
+  obtain ⟨kS, lS⟩ := partition_facts pS hS
+  exact reassembly P hm c C S ds hne hpl lC lS kC kS
 
 /-! ### non-vacuity and regression: the witnesses of the repaired findings -/
 
@@ -299,6 +348,9 @@ private def wGap : Conn × List DataPkt :=
 
 example : run toy [] (wGap.1.packets wGap.2) =
     [(none, none), (none, none), (none, none), (none, none), (some [97, 97, 98, 10, 10], none)] := by decide +kernel
+
+example : PartitionOf wGap.1.isnC [97, 97, 98, 10, 10] (segsOf true wGap.2) :=
+  ⟨[⟨1001, [97, 97]⟩, ⟨1003, [98]⟩, ⟨1004, [10, 10]⟩], by decide, by decide +kernel, by decide⟩
 
 /-- a retransmission (was: "aaaab\n\n" reported) -/
 private def wDup : Conn × List DataPkt :=
